@@ -27,6 +27,21 @@ for d in sorted(glob.glob(os.path.join(HERE, "seeded", "C*"))):
     det += "DETECTED" in verdict
     first += verdict.startswith("DETECTED")
     out.append("| %s | %s | %s | %s |" % (os.path.basename(d), clean(v.get("what") or m.get("summary", ""))[:260], clean(need)[:220], clean(verdict)[:330]))
+ev_rows = []
+for f in sorted(glob.glob(os.path.join(HERE, "evidence", "C*.json"))):
+    try:
+        e = json.load(open(f))
+        c = e["coverage"]
+        worst = ""
+        wr = c.get("worst_residuals") or {}
+        if wr:
+            k = max(wr, key=lambda k: (wr[k]["worst"] / wr[k]["bound"]) if wr[k]["bound"] else 0)
+            worst = "%s %.1e / %.0e" % (k[:40], wr[k]["worst"], wr[k]["bound"])
+        ev_rows.append("| %s | %s | %d | %d | %d | %d | %.0f | %s |" % (e["property_id"], e["tier"], c["evaluations"], c["distinct_nontrivial"], c.get("monitor_evaluations", 0), len(c.get("reached_functions", [])), e["wall_s"], worst))
+    except Exception as ex:  # noqa: BLE001
+        ev_rows.append("| %s | unreadable: %s |" % (os.path.basename(f), ex))
+out += ["", "### 8.7 Committed evidence at a glance (evidence/<id>.json, written by the checks themselves)", "",
+        "| Check | tier | cases | distinct non-trivial | monitor evaluations | anchored functions reached | wall s | residual closest to its bound (worst / bound) |", "|---|---|---|---|---|---|---|---|"] + ev_rows
 out += ["", "Totals: %d seeded changes, %d detected by the first version of the check, %d detected after strengthening, %d not detected." % (n, first, det - first, n - det),
         "", "<!-- END AUTO-TABLES -->"]
 p = os.path.join(HERE, "DESIGN.md")
